@@ -336,7 +336,7 @@ func (w *c15Worker) Item(idx int, emit func(vf.Violation), st sweep.Stats, sampl
 		}
 		if res.TimedOut {
 			st["no_answer"]++
-			emit(vf.Violation{Sig: fmt.Sprintf("no-answer|%s|%s", opSeq(p), caseFeatures(c)), Detail: fmt.Sprintf("%s: %s did not finish within 10 s (%d rows so far)", c.Name, refsem.ProgName(p), len(res.Rows)), Replay: rep})
+			emit(vf.Violation{Sig: fmt.Sprintf("no-answer|%s|%s", opSeq(p), caseFeatures(c)), Detail: fmt.Sprintf("%s: %s produced nothing for 10 s (%d rows so far)", c.Name, refsem.ProgName(p), len(res.Rows)), Replay: rep})
 			// the hung pipeline keeps the connection busy: start over
 			stop()
 			gi, stop, err = c15Serve(c)
